@@ -566,11 +566,12 @@ def exhaustive(rng):
 
 
 def generate(rng, tier):
+    cases = required_cases()            # every run, any seed, both tiers
     if tier == "quick":
-        cases = [gen_case(rng) for _ in range(450)]
+        cases += [gen_case(rng) for _ in range(420)]
         cases += [c for c in exhaustive(rng) if c["n"] in (1, 3)]
     else:
-        cases = [gen_case(rng) for _ in range(9000)]
+        cases += [gen_case(rng) for _ in range(9000)]
         cases += exhaustive(rng)
     return cases
 
@@ -1107,16 +1108,9 @@ def stats(cases, obss):
     return d
 
 
-def sanity(cases, obss):
-    """Fail-closed distribution check: a run that does not cover the distinctions the property quantifies over
-    must not report green."""
-    d = stats(cases, obss)
+def never_drawn(d):
+    """The kinds / argument forms / boundaries a run must contain (judged on the stats dict)."""
     probs = []
-    tot = d["total"]
-    if not tot:
-        return ["no cases"]
-    if d["error_cases"] > 0.1 * tot:
-        probs.append(f"{d['error_cases']} of {tot} cases raise")
     for st in STYPES:
         if not d["stype"].get(st):
             probs.append(f"stype {st} never drawn")
@@ -1169,20 +1163,6 @@ def sanity(cases, obss):
             probs.append(f"error path / representation {k} never drawn")
     if not d["dtype"].get("category"):
         probs.append("dtype category never drawn")
-    import inspect
-    sigs = {"EmbeddingTensorMapper.__init__": (EmbeddingTensorMapper.__init__, ["self", "embedder", "batch_size"]),
-            "EmbeddingTensorMapper.forward": (EmbeddingTensorMapper.forward, ["self", "ser", "device"]),
-            "TextTokenizationTensorMapper.__init__": (TextTokenizationTensorMapper.__init__, ["self", "text_tokenizer", "batch_size"]),
-            "TextTokenizationTensorMapper.forward": (TextTokenizationTensorMapper.forward, ["self", "ser", "device"]),
-            "TextEmbedderConfig": (TextEmbedderConfig.__init__, ["self", "text_embedder", "batch_size"]),
-            "TextTokenizerConfig": (TextTokenizerConfig.__init__, ["self", "text_tokenizer", "batch_size"]),
-            "ImageEmbedderConfig": (ImageEmbedderConfig.__init__, ["self", "image_embedder", "batch_size"]),
-            "ImageEmbedder.__call__": (ImageEmbedder.__call__, ["self", "path_to_images"]),
-            "Dataset.materialize": (Dataset.materialize, ["self", "device", "path", "col_stats"])} if HAVE_MAPPERS else {}
-    for name, (fn, want) in sigs.items():
-        got = list(inspect.signature(fn).parameters)
-        if got != want:
-            probs.append(f"public signature of {name} changed: {got}; the audit of drawn argument forms must be redone")
     for fmt in ("list", "dict"):
         for mk in MAP_KINDS:
             for mode in ("batched", "unbatched"):
@@ -1200,6 +1180,55 @@ def sanity(cases, obss):
         probs.append("direct mapper path never drawn")
     if not d["via"].get("dataset"):
         probs.append("Dataset path never drawn")
+    return probs
+
+
+REQUIRED_SEED = 20261001
+
+
+def required_cases():
+    """A DETERMINISTIC stream (fixed seed, independent of the run's seed and tier) that contains every kind,
+    argument form and boundary never_drawn() asks for, so that no seed can trip sanity() on an unchanged tree.
+    Greedy cover: cases are drawn from a fixed-seed generator and kept when they add a kind not yet covered."""
+    rng = C.Rng(REQUIRED_SEED)
+    need = set(never_drawn(stats([], [])))
+    kept = []
+    for _ in range(20000):
+        if not need:
+            break
+        c = gen_case(rng)
+        got = need - set(never_drawn(stats([c], [None])))
+        if got:
+            kept.append(c)
+            need -= got
+    return kept
+
+
+def sanity(cases, obss):
+    """Fail-closed distribution check: a run that does not cover the distinctions the property quantifies over
+    must not report green."""
+    d = stats(cases, obss)
+    probs = []
+    tot = d["total"]
+    if not tot:
+        return ["no cases"]
+    if d["error_cases"] > 0.1 * tot:
+        probs.append(f"{d['error_cases']} of {tot} cases raise")
+    probs += never_drawn(d)
+    import inspect
+    sigs = {"EmbeddingTensorMapper.__init__": (EmbeddingTensorMapper.__init__, ["self", "embedder", "batch_size"]),
+            "EmbeddingTensorMapper.forward": (EmbeddingTensorMapper.forward, ["self", "ser", "device"]),
+            "TextTokenizationTensorMapper.__init__": (TextTokenizationTensorMapper.__init__, ["self", "text_tokenizer", "batch_size"]),
+            "TextTokenizationTensorMapper.forward": (TextTokenizationTensorMapper.forward, ["self", "ser", "device"]),
+            "TextEmbedderConfig": (TextEmbedderConfig.__init__, ["self", "text_embedder", "batch_size"]),
+            "TextTokenizerConfig": (TextTokenizerConfig.__init__, ["self", "text_tokenizer", "batch_size"]),
+            "ImageEmbedderConfig": (ImageEmbedderConfig.__init__, ["self", "image_embedder", "batch_size"]),
+            "ImageEmbedder.__call__": (ImageEmbedder.__call__, ["self", "path_to_images"]),
+            "Dataset.materialize": (Dataset.materialize, ["self", "device", "path", "col_stats"])} if HAVE_MAPPERS else {}
+    for name, (fn, want) in sigs.items():
+        got = list(inspect.signature(fn).parameters)
+        if got != want:
+            probs.append(f"public signature of {name} changed: {got}; the audit of drawn argument forms must be redone")
     # every recorded call element must have been inspected: at least one missing cell must have reached a callable
     seen_missing = 0
     for c, o in zip(cases, obss):
@@ -1324,9 +1353,10 @@ def coq_term_frame(case, obs):
             rec = obs["cols"][c["name"]]
             any_bad = any(x.get("bad_cell") for x in case["cols"])
             raised = "exc" in obs or "exc" in rec
-            if any_bad and not (c.get("bad_cell") and raised):
+            if any_bad and not (c.get("bad_cell") and raised and rec.get("calls")):
                 # the model mirrors the current code's raise for an unopenable cell; a conversion that returned
-                # normally there is judged by the oracle only, and the other columns of an aborted frame say nothing
+                # normally there is judged by the oracle only, and the other columns of an aborted frame (also a
+                # second unopenable column that was never reached) say nothing
                 continue
             got = calls_of[c["name"]]
             if got is None:
